@@ -221,5 +221,8 @@ def shexClasses (cfg : Config) (r : Profiler.Result) : List Shape :=
 
 def run (cfg : Config) (g : Graph) : List Shape := shexClasses cfg (Profiler.run cfg g)
 
+/-- the same pipeline for an externally given selection (shape maps, mixed mode) -/
+def runSel (cfg : Config) (inst : Tracker.InstDict) (g : Graph) : List Shape := shexClasses cfg (Profiler.runSel cfg inst g)
+
 end Shexer
 end Shexer
